@@ -13,7 +13,7 @@ PROPERTY = "C03"
 LEVEL = "exploration"
 NEED_EXT = True
 REQUIRED = ["refit.outputs", "refit.state", "same_seed.outputs", "global_seed_independence",
-            "refit.after_set_params", "refit.after_failed_fit", "refit.frames", "two_instances", "hashseed.two_processes"]
+            "refit.after_set_params", "refit.after_failed_fit", "refit.frames", "two_instances", "hashseed.two_processes", "refit.after_interrupted_fit"]
 RULE = ("fittable registered classes (23) x configurations x training-set pairs (A, B) differing in n, d, label set / "
         "vocabulary / categorical columns x {fit A, [query], fit B, fit A} x 3 seeds (thorough 12); thread-parallel "
         "configurations included; non-trivial = A and B differ in shape or label set; distinct = distinct (class, "
@@ -247,6 +247,51 @@ def run_case(case, ctx):
                                   "".join(hist), "; ".join(d[:3])), cfg=cfg)
             if _differ(A, B):
                 ctx.nontriv(spec.name, vi, hist, sub)
+        # ---- history: a fit interrupted by the user (KeyboardInterrupt injected at a call site of the fit - not an
+        # Exception, so `except Exception` clean-ups do not run), then a complete fit on other data
+        if sub % 3 == 0:
+            try:
+                from vrt import failpoints
+                probe = spec.make(vi)
+                numpy.random.seed(sub + 17)
+                res_, sites_, hits_ = failpoints.census(lambda: spec.fit(probe, _copy(A)))
+                keys_ = sorted(sites_)
+            except Exception:
+                keys_ = []
+            modfile = type(spec.make(vi)).__module__.rsplit(".", 1)[-1] + ".py"
+            own = [k_ for k_ in keys_ if k_[0].endswith(modfile)]
+            rest = [k_ for k_ in keys_ if k_ not in own]
+            for site in own[:4] + rest[:: max(1, len(rest) // 2)][:2]:
+                cfg = {"class": spec.name, "variant": vi, "history": "A interrupted at %s:%s, then B" % (
+                    site[0].rsplit("/", 1)[-1], site[1]), "sub": sub}
+                e = spec.make(vi)
+                try:
+                    numpy.random.seed(sub + 17)
+                    with failpoints.Inject(site, 1, KeyboardInterrupt):
+                        spec.fit(e, _copy(A))
+                    continue            # the site was not reached again
+                except KeyboardInterrupt:
+                    pass
+                except Exception:
+                    continue
+                try:
+                    numpy.random.seed(sub + 17)
+                    spec.fit(e, _copy(B))
+                    fresh = spec.make(vi)
+                    numpy.random.seed(sub + 17)
+                    spec.fit(fresh, _copy(B))
+                    Q = spec.query(numpy.random.RandomState(9), B)
+                    og, of = spec.outputs(e, Q), spec.outputs(fresh, Q)
+                except Exception as ex:
+                    ctx.hit("refit.after_interrupted_fit")
+                    ctx.violation(K + "refit/raised-after-interrupted-fit/%s" % type(ex).__name__, "%s: %s" % (
+                        cfg["history"], str(ex)[:120]), cfg=cfg)
+                    continue
+                ctx.hit("refit.after_interrupted_fit")
+                bad = [m for m in of if m not in og or not same_out(of[m], og[m])]
+                if bad:
+                    ctx.violation(K + "refit/outputs-differ-from-fresh-fit/after-interrupted-fit", "%s: %s differs from "
+                                  "a fresh instance fitted on B" % (cfg["history"], bad[0]), cfg=cfg)
         # ---- two instances: fitting the second one (other data) changes nothing of what the first one answers
         cfg = {"class": spec.name, "variant": vi, "history": "e1.fit(A); e2.fit(B); e1 again", "sub": sub}
         try:
